@@ -80,6 +80,9 @@ class BuiltinMixin(object):
             yield st, SV(z3.Length(x.term), INT)
         elif k in ('list', 'tuple'):
             yield st, SV(self.H(st, 'Ll')[x.term], INT)
+        elif k == 'obj' and x.ty.args[0] in getattr(self.world, 'tuple_records', {}):
+            alen = self.record_len(st, x)
+            yield st, (mk(len(self.world.tuple_records[x.ty.args[0]])) if alen is None else SV(alen, INT))
         elif k == 'obj':
             for r in self.call_method(st, x, '__len__', [], {}, fr):
                 yield r
@@ -169,6 +172,13 @@ class BuiltinMixin(object):
         raise OutOfReach('isinstance on %r' % (x,))
 
     def obj_isinstance(self, st, addr, cname, classes):
+        if cname in getattr(self.world, 'tuple_records', {}):
+            # a structure-table record is a tuple (child entries inside groups are lists): decided only when both agree
+            as_t = any(issubclass(tuple, c) for c in classes)
+            as_l = any(issubclass(list, c) for c in classes)
+            if as_t != as_l:
+                raise OutOfReach('isinstance distinguishing tuple from list on a %s record' % cname)
+            return as_t
         if cname not in self.world.classes:
             return False
         cands = self.world.subclasses(cname)
